@@ -1,6 +1,13 @@
+import CharsetProof.Lemmas.F32
 import CharsetProof.Lemmas.Loop
+import CharsetProof.Lemmas.Share
 import CharsetProof.Props.C10
+import CharsetProof.Props.C10b
 open Charset
+#print axioms C10_share
+#print axioms append_distinct
+#print axioms sameOutput_of_identical
+#print axioms Fl.sub_self_finite
 #print axioms C10_nodup
 #print axioms C10_nodup_current
 #print axioms C10_lookup
